@@ -6,74 +6,6 @@ From KV Require Import Lib.Str Gen.UmlBlobSrc.
 Import ListNotations.
 Open Scope string_scope.
 
-Lemma pin_class_operation : literals_class_operation =
-  ["name"; "public"; "void"; ""; ""; "child_0"; "visibility"; "visibility"; "package"; "public"; "returnType_0"; "returnType_0"; "typeModifier"; "typeModifier"; "child"; "parameter"; "type"; "child_0"; ""; "type_string"; "type_string"; "type_0"; ""; "inout"; "direction"; "direction"; "const"; "in"; "direction"; "out"; ""; "typeModifier"; "typeModifier"; ""; "defaultValue_string"; "defaultValue_string"; ""; "multiplicity"; "multiplicity"; "const"; "type"; "name"; "name"; "modifier"; "defaultvalue"; "multiplicity"; "direction"; "documentation_plain"; "documentation_plain"; "abstract"; (" IS this member const? Declaring a member function with the const keyword specifies that the function is " ++ bs [10] ++ "            a ""read-only"" function that does not modify the object for which it is called. " ++ bs [10] ++ "            If func does not change anything on it ( it can change on Logger) It can be ""labeled"" as ""query""." ++ bs [10] ++ "        "); "query"; "scope"; "scope"].
-Proof. vm_compute. reflexivity. Qed.
-
-Lemma pin_class_attribute : literals_class_attribute =
-  [""; "name"; "private"; ""; ""; "void"; ""; "child_0"; "visibility"; "visibility"; "typeModifier"; "typeModifier"; "type_0"; "type_0"; "documentation_plain"; "documentation_plain"; "hasSetter"; "hasGetter"; "scope"; "scope"; "initialValue_string"; "initialValue_string"; "readOnly"; "multiplicity"; "multiplicity"].
-Proof. vm_compute. reflexivity. Qed.
-
-Lemma pin_stereotypes : literals_stereotypes =
-  ["child"; "stereotype"; "interface"; "autogen"; "enumeration"; "struct"; "packed"; "Class : unhandled stereotype : "; "abstract"; "documentation_plain"; "child"; "type"; "type"; "enumerationliteral"; "name"].
-Proof. vm_compute. reflexivity. Qed.
-
-Lemma pin_parse_attributes : literals_parse_attributes =
-  ["child"; "child"; "attribute"; "type"].
-Proof. vm_compute. reflexivity. Qed.
-
-Lemma pin_parse_operations : literals_parse_operations =
-  ["child"; "child"; "operation"; "type"].
-Proof. vm_compute. reflexivity. Qed.
-
-Lemma pin_package : literals_package =
-  ["child"; "child"].
-Proof. vm_compute. reflexivity. Qed.
-
-Lemma pin_inheritance : literals_inheritance =
-  ["child"; "fromModel_0"; "fromModel_0"; ":"; "toModel_0"; "toModel_0"; ":"].
-Proof. vm_compute. reflexivity. Qed.
-
-Lemma pin_association : literals_association =
-  ["documentation_plain"; "documentation_plain"; "child"; "child"; "type"; "associationend"; "child"; "Direction"; "0"; "EndModelElement_0"; "EndModelElement_0"; ":"; "Direction"; "1"; "EndModelElement_0"; "EndModelElement_0"; ":"; "aggregationKind"; "aggregationKind"; "Aggregation"; "aggregationKind"; "Composition"; "multiplicity"; "multiplicity"; "Direction"; "0"; "Direction"; "1"; "Direction"; "0"; "Composition"; "1"; "Direction"; "1"; "Association"; "0"; "visibility"; "visibility"; "Direction"; "0"; "Direction"; "1"; "Direction"; "0"; "Direction"; "1"; "providePropertyGetterMethod"; "Direction"; "0"; "Direction"; "1"; "providePropertySetterMethod"; "Direction"; "0"; "Direction"; "1"; "readOnly"; "Direction"; "0"; "Direction"; "1"].
-Proof. vm_compute. reflexivity. Qed.
-
-Lemma pin_nested_type_names : literals_nested_type_names =
-  [":"; ""; "::"; ":"].
-Proof. vm_compute. reflexivity. Qed.
-
-Lemma pin_values_from_outside : literals_values_from_outside =
-  [";"; ":"; ":"; "id"; "name"; "type"; ";"; "="; "="; ","; ""; "<"; ">"; ">"; ""; (bs [10]); ""; (bs [9]); ""; "("; ""; ")"; ""; "<"; ","; ""; "_"; "Oops >> "].
-Proof. vm_compute. reflexivity. Qed.
-
-Lemma pin_parse_blob : literals_parse_blob =
-  [""; "{"; "child_"; "}"].
-Proof. vm_compute. reflexivity. Qed.
-
-Lemma pin_container_type : literals_container_type =
-  ["*"; "vector"; "0..1"; "none"; "0..*"; "vector"; "1..*"; "vector"; ".."; ".."; "array:"; "vector"; "0"; "none"; "1"; "none"; "array:"; "none"; "none"].
-Proof. vm_compute. reflexivity. Qed.
-
-Lemma pin_type_and_name : literals_type_and_name =
-  ["[]"; "std::vector<"; ">"; "vector"; "std::vector<"; ">"; "array"; "["; ":"; "]"].
-Proof. vm_compute. reflexivity. Qed.
-
-Lemma pin_default_format : literals_default_format =
-  ["[]"; " = {"; "}"; "vector"; " = {"; "}"; "array"; ""; " = "].
-Proof. vm_compute. reflexivity. Qed.
-
-Lemma pin_loadandtest : literals_loadandtest =
-  ["Class"; "Package"; "Association"; "Realization"; "Generalization"; "Realization"; "Usage"; "Class Diagram : unhandled model-element type : "; ":"; ""; "::"; ":"].
-Proof. vm_compute. reflexivity. Qed.
-
-Lemma pin_codes :
-  visibility_codes = [("Public", "71"); ("Protected", "67"); ("Private", "66"); ("Package", "68")]
-  /\ vis_strings = ["public"; "public"; "protected"; "private"; "package"]
-  /\ (scope_classifier, direction_in, direction_out, aggregation_kind__aggregate, aggregation_kind__composite) = ("65", "65", "66", "66", "67")
-  /\ clean_modifier_chain = [("*", ""); ("&", ""); ("]", ""); ("[", ""); ("boolean", "bool")]
-  /\ loadandtest_dispatch = ["Class"; "Package"; "Association"; "Realization"; "Generalization"; "Realization"; "Usage"].
-Proof. repeat split; vm_compute; reflexivity. Qed.
-
 Definition adaptor_literals_expected : Prop :=
   (literals_class_operation =
   ["name"; "public"; "void"; ""; ""; "child_0"; "visibility"; "visibility"; "package"; "public"; "returnType_0"; "returnType_0"; "typeModifier"; "typeModifier"; "child"; "parameter"; "type"; "child_0"; ""; "type_string"; "type_string"; "type_0"; ""; "inout"; "direction"; "direction"; "const"; "in"; "direction"; "out"; ""; "typeModifier"; "typeModifier"; ""; "defaultValue_string"; "defaultValue_string"; ""; "multiplicity"; "multiplicity"; "const"; "type"; "name"; "name"; "modifier"; "defaultvalue"; "multiplicity"; "direction"; "documentation_plain"; "documentation_plain"; "abstract"; (" IS this member const? Declaring a member function with the const keyword specifies that the function is " ++ bs [10] ++ "            a ""read-only"" function that does not modify the object for which it is called. " ++ bs [10] ++ "            If func does not change anything on it ( it can change on Logger) It can be ""labeled"" as ""query""." ++ bs [10] ++ "        "); "query"; "scope"; "scope"])
@@ -96,7 +28,9 @@ Definition adaptor_literals_expected : Prop :=
   /\ (literals_values_from_outside =
   [";"; ":"; ":"; "id"; "name"; "type"; ";"; "="; "="; ","; ""; "<"; ">"; ">"; ""; (bs [10]); ""; (bs [9]); ""; "("; ""; ")"; ""; "<"; ","; ""; "_"; "Oops >> "])
   /\ (literals_parse_blob =
-  [""; "{"; "child_"; "}"])
+  [""; ""; """"; "\"; "{"; "child_"; "}"])
+  /\ (literals_split_outside_quotes =
+  [""; ""; """"; "\"; ""])
   /\ (literals_container_type =
   ["*"; "vector"; "0..1"; "none"; "0..*"; "vector"; "1..*"; "vector"; ".."; ".."; "array:"; "vector"; "0"; "none"; "1"; "none"; "array:"; "none"; "none"])
   /\ (literals_type_and_name =
